@@ -71,14 +71,44 @@ package magic
 
 //@ spec pow8(k) = ite(k <= 0, 1, ite(k == 1, 8, ite(k == 2, 64, ite(k == 3, 512, ite(k == 4, 4096, ite(k == 5, 32768, ite(k == 6, 262144, ite(k == 7, 2097152, ite(k == 8, 16777216, ite(k == 9, 134217728, ite(k == 10, 1073741824, ite(k == 11, 8589934592, 68719476736))))))))))))
 
+// --- C18: tar header checksum -------------------------------------------------------------
+// sumU / sumS: unsigned and signed sums of a byte string in which positions 148..155 (the
+// checksum field) count as spaces; defined by prefix recursion (trusted spec).
+//@ ghostfun sumU(bytes) int
+//@ ghostfun sumS(bytes) int
+//@ spec cf(m, i) = ite(148 <= i && i < 156, 32, m[i])
+//@ spec sb(x) = ite(x >= 128, x - 256, x)
+//@ spec cs(m, i) = ite(148 <= i && i < 156, 32, sb(m[i]))
+//@ axiom sum_def0(m bytes): sumU(m[:0]) == 0 && sumS(m[:0]) == 0
+//@ axiom sum_def1(m bytes, n int): 0 <= n ==> sumU(m[:n+1]) == sumU(m[:n]) + cf(m, n) && sumS(m[:n+1]) == sumS(m[:n]) + cs(m, n)
+// octalOf: the value tarParseOctal reads from a field; it depends only on the bytes of the field.
+//@ ghostfun octalOf(bytes) int
+//@ axiom octal_frame(m bytes, p int, v int): !(148 <= p && p < 156) ==> octalOf(store(m, p, v)[148:156]) == octalOf(m[148:156])
+//@ spec isBytes(m) = forall i :: 0 <= m[i] && m[i] <= 255
+//@ spec tarOK(m) = len(m) >= 512 && octalOf(m[148:156]) != -1 && (octalOf(m[148:156]) == sumU(m[:512]) || octalOf(m[148:156]) == sumS(m[:512]))
+
+// changing one byte outside the checksum field moves each sum by that byte's difference
+//@ lemma C18_upd(m bytes, p int, v int, n int) induction n use sum_def0, sum_def1: 0 <= p && !(148 <= p && p < 156) ==> sumU(store(m, p, v)[:n]) == sumU(m[:n]) + ite(p < n, v - m[p], 0) && sumS(store(m, p, v)[:n]) == sumS(m[:n]) + ite(p < n, sb(v) - sb(m[p]), 0)
+// the two sums differ by a non-negative multiple of 256
+//@ lemma C18_diff(m bytes, n int) induction n use sum_def0, sum_def1: isBytes(m) ==> sumU(m[:n]) - sumS(m[:n]) >= 0 && (sumU(m[:n]) - sumS(m[:n])) % 256 == 0
+// corruption sensitivity (second half of C18)
+//@ lemma C18_corrupt(m bytes, p int, v int) use C18_upd, C18_diff, octal_frame: isBytes(m) && 0 <= p && p < 512 && !(148 <= p && p < 156) && 0 <= v && v <= 255 && v != m[p] && tarOK(m) ==> !tarOK(store(m, p, v))
+
 //@ func magic.tarParseOctal
 //@   requires len(b) <= 12
 //@   ensures -1 <= result
+//@   defines result == octalOf(b)
 //@   loop 1 invariant 0 <= ret && ret < pow8(rangeindex + 1) && rangeindex < 12
 
 //@ func magic.tarChksum
 //@   requires len(b) <= 4096
+//@   uses sum_def0, sum_def1
+//@   ensures [C18_sums] unsigned == sumU(b) && signed == sumS(b)
 //@   loop 1 invariant 0 <= unsigned && unsigned <= 255 * (rangeindex + 1) && -128 * (rangeindex + 1) <= signed && signed <= 127 * (rangeindex + 1)
+//@   loop 1 invariant [C18_sum_inv] unsigned == sumU(b[:rangeindex+1]) && signed == sumS(b[:rangeindex+1])
+
+//@ func magic.Tar
+//@   ensures [C18_tar_sound] result ==> tarOK(raw)
 
 // WHATWG binary data bytes, transcribed from the statement of C07.
 //@ spec isBinByte(b) = b <= 8 || b == 11 || (14 <= b && b <= 26) || (28 <= b && b <= 31)
